@@ -50,7 +50,25 @@ type childResult struct {
 	Stderr  string
 }
 
+// runChild runs the history in a child; a timeout or an external kill (OOM killer) is retried once alone
+// before it counts (machine load must not become a verdict).
 func runChild(h *History) *childResult {
+	res := runChildOnce(h)
+	if res.Timeout || strings.Contains(res.Crash, "killed") {
+		rep.Count("child:retried-after-timeout-or-kill")
+		retryMu.Lock()
+		res = runChildOnce(h)
+		retryMu.Unlock()
+		if strings.Contains(res.Crash, "killed") && !res.Timeout {
+			hx.Fatal("child killed from outside twice (%s) on %v", res.Crash, h.Ops)
+		}
+	}
+	return res
+}
+
+var retryMu sync.Mutex
+
+func runChildOnce(h *History) *childResult {
 	id := nextID.Add(1)
 	path := filepath.Join(*hx.Work, fmt.Sprintf("h%d.json", id))
 	b, _ := json.Marshal(h)
@@ -58,7 +76,7 @@ func runChild(h *History) *childResult {
 		hx.Fatal("write history: %v", err)
 	}
 	defer os.Remove(path)
-	cctx, cancel := context.WithTimeout(context.Background(), 90*time.Second)
+	cctx, cancel := context.WithTimeout(context.Background(), 180*time.Second)
 	defer cancel()
 	cmd := exec.CommandContext(cctx, self, "-child", path)
 	cmd.Env = append(os.Environ(), "GOMEMLIMIT=1GiB", "GOTRACEBACK=single", "GOMAXPROCS=2")
@@ -706,6 +724,9 @@ func main() {
 
 // replay: the file written by ./check (impl_violations[].input / broken[].detail.input are histories).
 func replay(path string) {
+	if _, err := os.Stat(path); err != nil && !filepath.IsAbs(path) {
+		path = filepath.Join(os.Getenv("VERIF_ROOT"), path) // ./check runs the harness from harness/
+	}
 	raw, err := os.ReadFile(path)
 	if err != nil {
 		hx.Fatal("replay: %v", err)
